@@ -58,7 +58,8 @@ NAMES = ["X", "Y", "X_BAK1", "Model2"]      # Model2: an explicit name that coll
 SAVED_NAME = "X"
 
 RENAMES = [["X", False], ["X", True], ["Y", False], ["Y", True], ["X_BAK1", False], ["X_BAK1", True],
-           ["Model2", False]]
+           ["Model2", False],
+           ["2bad", False], ["_x", True]]      # invalid names: the rename is rejected and nothing changes
 
 # a tier is a list of phases; every phase is an exhaustive BFS of its own alphabet to its own depth
 BOUNDS = {
